@@ -208,6 +208,8 @@ class StubKDTree:
         if p != np.inf:
             raise E.HarnessError("query_ball_point only modelled for p=inf")
         X = np.atleast_2d(_objarr(X))
+        if X.shape[1] != self.m:
+            raise ValueError("x must consist of vectors of length %d but has shape %s" % (self.m, X.shape))
         self.queries.append(("ball", X.copy(), r))
         out = np.empty(X.shape[0], dtype=object)
         for q in range(X.shape[0]):
